@@ -8,7 +8,8 @@ MANIFEST = dict(
     cat="proof", tech="Coq: pairing uniqueness + reduction-loop invariant + verified checkers, applied to the implementation's exposed state after every operation (R compared exactly with the algorithm model)",
     text="Coq theorems, for every prime p and every size: the pivot pairing of a boundary matrix is unique over all reduced matrices reachable "
          "by upper-triangular column operations (C05_pairing_unique), and the executable checker check_any only accepts such decompositions "
-         "(C05_check_RU_sound), so every accepted state exposes the certified canonical barcode (C05_certified_lows_canonical); the insertion "
+         "(C05_check_RU_sound), so every accepted state exposes the certified canonical barcode (C05_certified_lows_canonical), which on a chain "
+         "complex is a partition of the cells - no cell is in two bars (C05_barcode_is_a_partition, C05_certified_pairs_disjoint); the insertion "
          "loop itself is modelled (C05_ru_insert_inv: each step keeps the decomposition and lowers the low, the loop is total and leaves the "
          "first j+1 columns reduced) and, as long as no swap happened, the implementation's R is compared exactly with the model's. The C++ is tied "
          "by running, for a grid of Matrix<Options> instantiations (9 column types x boundary/RU/chain x 3 indexings x row access x removable x "
